@@ -112,9 +112,15 @@ def compare(o, res):
             x = float(o['I'][i, w])
             if not C.in_enclosure(x, Is[i][w], rel=1e-8, abs_=1e-8 * Bmax):
                 return 'intensity angle %d wn %d: impl %r model %r' % (i, w, x, C.iv_mid(Is[i][w]))
+    # every term of the layer sum is rounded relative to ITS black body: where a thin hot layer outshines the rest
+    # (Wien tail) the 1 - exp(-tiny) of that layer carries an error of 1e-16 relative to one, i.e. up to 1e-16 of the
+    # hottest layer's black-body ratio in absolute terms, however small the spectrum is
+    scale = (o['Rp'] / o['Rs']) ** 2 / planck_py(o, o['wn'], o['Tstar']) if not o['direct'] else \
+        o['Rp'] ** 2 / (2 * o['dist'] ** 2) * np.ones(len(o['wn']))
+    hot = planck_py(o, o['wn'], float(np.max(o['T']))) * scale
     for w, v in enumerate(spec[0]):
         x = float(o['spec'][w])
-        if not C.in_enclosure(x, v, rel=1e-8):
+        if not C.in_enclosure(x, v, rel=1e-8, abs_=1e-13 * float(hot[w])):
             return 'spectrum wn %d: impl %r model %r' % (w, x, C.iv_mid(v))
     return None
 
@@ -177,6 +183,8 @@ def kcases(ctx, rng, n=(24, 200), tag='C02_k'):
     try:
         for i in range(ctx.n(*n)):
             contribs = ['Absorption'] + [c for c in ['CIA', 'Rayleigh', 'FlatMie'] if rng.random() < 0.3]
+            if len(contribs) > 1 and rng.random() < 0.15:
+                contribs.remove('Absorption')      # correlated-k mode without a molecular absorber in the list
             spec = tmodel.gen_spec(rng, contribs=contribs, nlayers=rng.choice([1, 2, 3, 4, 5, 7]),
                                    nwn=rng.choice([1, 2, 3, 4]), ngas=rng.choice([1, 2]))
             n = spec['nlayers']
@@ -204,9 +212,12 @@ def kcases(ctx, rng, n=(24, 200), tag='C02_k'):
                 ctx.violation('impl-raises:ktable:' + C.err_kind(e), 'correlated-k emission model raised %r %s'
                               % (e, traceback.format_exc()[-600:]), replay=rp)
                 continue
-            if o['ksig'] is None:
+            if o['ksig'] is None and 'Absorption' in contribs:
                 ctx.violation('k:mode', 'opacity_method=ktables did not select the correlated-k path', replay=rp)
                 continue
+            if o['ksig'] is None:
+                # no molecular absorber: the mixture is the trivial one (one point of weight one, zero depth)
+                o['ksig'], o['kw'] = np.zeros((len(o['T']), len(o['wn']), 1)), np.array([1.0])
             koracle(ctx, o, rp)
             obs.append(o); rps.append((rp, kind)); exprs.append(kmodel_expr(o))
             if rng.random() < 0.4:
@@ -220,6 +231,8 @@ def kcases(ctx, rng, n=(24, 200), tag='C02_k'):
                         upd['T'] = rng.uniform(300, 2500)
                         model['T'] = upd['T']
                     o2 = observe(model, direct)
+                if o2['ksig'] is None:
+                    o2['ksig'], o2['kw'] = np.zeros((len(o2['T']), len(o2['wn']), 1)), np.array([1.0])
                 rp2 = dict(rp, updated=upd)
                 koracle(ctx, o2, rp2)
                 obs.append(o2); rps.append((rp2, kind)); exprs.append(kmodel_expr(o2))
@@ -368,6 +381,8 @@ def kreplay(ctx, r):
     finally:
         shutil.rmtree(kdir, ignore_errors=True)
         tmodel.reset_caches()
+    if o['ksig'] is None:
+        o['ksig'], o['kw'] = np.zeros((len(o['T']), len(o['wn']), 1)), np.array([1.0])
     koracle(ctx, o, r)
     res = C.run_cases('C02_kreplay', HEADER, [kmodel_expr(o)])
     bad = compare(o, res[0])
